@@ -76,6 +76,12 @@ def obs(o):
     return "ORestoreErr"
 
 
+def ctx_term(k, s):
+    """a transaction of a consensus-executed block: id code 1000+k, no observation"""
+    cmd = "None" if s.get("unknown") else "(Some %s)" % script(s["cmd"])
+    return "(Build_tx %d 1 true %s %s %s)" % (1000 + k, script(s["before"]), cmd, script(s["after"]))
+
+
 def tx_term(t):
     s = t["s"]
     cmd = "None" if s.get("unknown") else "(Some %s)" % script(s["cmd"])
@@ -99,6 +105,14 @@ def step_term(s):
     tail = "%s %s %s %s" % (r, cbool(s["rootref"]), cbool(s["treeref"]), dump(s["dump"]))
     if s["t"] == "block":
         return "(SBlock %d %s %s %s %s)" % (s["h"], clist(s.get("txs") or [], tx_term), cbool(s.get("dry", False)), EXP[s["exp"]], tail)
+    if s["t"] == "cblock":
+        evs = clist(s.get("bev") or [], lambda e: "(%d, %s, %s, %d, %d, %s)" % (e["n"], clist(e["d"] or []), clist(e["t"] or []), e["i"], e["h"], cbool(e["txok"])))
+        return "(SCBlock %d %d%%nat %d%%nat %s %s %s)" % (s["h"], s.get("nb", 0), s.get("na", 0),
+                                                         clist(list(enumerate(s.get("cands") or [])), lambda ks: ctx_term(ks[0], ks[1])), evs, tail)
+    if s["t"] == "cblock":
+        evs = clist(s.get("bev") or [], lambda e: "(%d, %s, %s, %d, %d, %s)" % (e["n"], clist(e["d"] or []), clist(e["t"] or []), e["i"], e["h"], cbool(e["txok"])))
+        return "(SCBlock %d %d%%nat %d%%nat %s %s %s)" % (s["h"], s.get("nb", 0), s.get("na", 0),
+                                                         clist(list(enumerate(s.get("cands") or [])), lambda ks: ctx_term(ks[0], ks[1])), evs, tail)
     if s["t"] == "gen":
         return "(SGen %d %s %s %s %s)" % (s["h"], clist(s.get("txs") or [], tx_term), clist(s.get("txs2") or [], tx_term),
                                           cbool(s.get("selok", False)), tail)
@@ -121,6 +135,8 @@ def evaluate(ck, recs):
     for r, code in zip(recs, res):
         for s in r["steps"]:
             ck.count()
+            if s["t"] == "cblock":
+                ck.nontrivial(("cblock", r["id"], s["h"], s.get("nb"), s.get("na"), len(s.get("bev") or []), json.dumps(s.get("cands"), sort_keys=True)))
             if s["t"] in ("block", "gen"):
                 if s["t"] == "gen":
                     ck.nontrivial(("gen", r["id"], s["h"], s["res"], tuple(t["r"] for t in s.get("txs") or [])))
@@ -135,6 +151,7 @@ def evaluate(ck, recs):
         s = r["steps"][ix]
         spec_bad = c >= 2
         names = {"block": "ExecuteTransaction/Commit", "revert": "Revert", "init": "Init (restart recovery)",
+                 "cblock": "block executed through consensus abi_caller (block-level event renumbering) + Commit",
                  "gen": "block generation (selectTransactionsByFee + Commit{DryRun}) then the block on a fresh context"}
         what = "%s: implementation %s (scenario %d step %d): %s" % (
             names[s["t"]], "violates the C16 oracle" if spec_bad else "differs from the proved model", r["id"], ix, json.dumps(s)[:1200])
